@@ -66,6 +66,9 @@ def handle : List String → String
       if v != "ok" then v
       else if mode == "sync" && sizes != mSizes then s!"diff low-level-write-sizes model={mSizes} impl={sizes}"
       else "ok"
+  | ["contend", want, got] =>
+    if want == got then "ok" else
+      s!"specviol a message written while the head handler was busy with another goroutine's message was transmitted as {got}; its caller held {want} when Channel.Write returned (and reused the storage afterwards)"
   | ["tobytes", msg, r] =>
     match parseMsg msg with
     | none => "bad-op"
